@@ -65,10 +65,14 @@ class Worker:
         exe = INTERPRETERS[self.interp]
         if not os.path.exists(exe):
             raise HarnessError("interpreter %s missing at %s" % (self.interp, exe))
-        self.stderr_file = open(os.devnull, "w") if False else subprocess.PIPE
+        errdir = os.environ.get("VERIF_WORKER_STDERR_DIR")
+        if errdir:
+            stderr = open(os.path.join(errdir, "worker-%s-%d.err" % (self.interp, os.getpid())), "ab")
+        else:
+            stderr = subprocess.DEVNULL
         self.proc = subprocess.Popen(
             [exe, "-u", "-X", "faulthandler", os.path.join(VERIF, "vlib", "worker_main.py")],
-            stdin=subprocess.PIPE, stdout=subprocess.PIPE, stderr=subprocess.DEVNULL,
+            stdin=subprocess.PIPE, stdout=subprocess.PIPE, stderr=stderr,
             env=worker_env(self.interp, self.hooks, self.extra_env), cwd=VERIF, bufsize=0,
         )
         self._buf = b""
